@@ -16,7 +16,10 @@ EXPLANATION = ("the command-line model (Model/Cli.v: date_parse incl. the two IS
                "total = seconds/unit; first N recurrence points one per line); malformed arguments must give a non-zero exit with a "
                "message, never a traceback")
 
-OFFSETS = ["P1D", "-P1D", "PT1S", "-PT1S", "P1M", "-P1M", "P1Y", "PT36H", "P1W", "-P1W", "PT1M30S", "P1DT12H", "-PT0,5H", "+P2D", "P1Y1M1DT1H1M1S"]
+OFFSETS = ["P1D", "-P1D", "PT1S", "-PT1S", "P1M", "-P1M", "P1Y", "PT36H", "P1W", "-P1W", "PT1M30S", "P1DT12H", "-PT0,5H", "+P2D", "P1Y1M1DT1H1M1S",
+           # the date-time-like ("alternative") duration notation, which takes its sign only from the offset's own prefix
+           "P0000-00-01T12:00:00", "-P0000-00-01T12:00:00", "-P00000001T12", "P0000-001T00", "-P0000-001T06:30", "+P0001-00-00T00",
+           "-P0000-01-00", "P00010000T000000"]
 
 
 def rand_text(rng, md, big=True):
